@@ -57,6 +57,7 @@ func (a *bufAcc) setOff(v string) {
 }
 func (a *bufAcc) inv() {
 	b, o := a.buf(), a.off()
+	a.vc.typingFacts(a.st, types.NewSlice(types.Typ[types.Uint8]), b)
 	a.vc.assume(fmt.Sprintf("(and (bvsle (_ bv0 64) %s) (bvsle %s (g_slen %s)) (bvsle (_ bv0 64) (g_slen %s)) (bvsle (g_slen %s) (g_scap %s)) (bvsle (g_scap %s) #x0000ffffffffffff) (bvsle (_ bv0 64) (g_soff %s)) (bvsle (g_soff %s) #x0000ffffffffffff))", o, o, b, b, b, b, b, b, b))
 }
 func (a *bufAcc) avail() string { return app("bvsub", app("g_slen", a.buf()), a.off()) }
@@ -311,7 +312,14 @@ func (eng *Engine) initBufModels() {
 		vc.trust("model: decode.Decode/binary.Read consume exactly the fixed sizes of the listed fields (big endian) or fail")
 		fields, ok := literalFields(c.Args[1])
 		if !ok {
-			panic(unsupported("decode.Decode with a non-literal field list in " + fr.fn.String()))
+			// field list built at run time: the targets are not known statically.
+			// Conservative: the whole heap (including the buffer position) is forgotten.
+			fr.frameCall(b, &ModSet{all: true, set: map[string]keyInfo{}}, nil, st, reach, pos, "decode.Decode")
+			vc.havocAll(st)
+			vc.note("decode.Decode with a field list built at run time in " + fr.fn.String() + ": heap forgotten")
+			e := vc.fresh("g_Iface", "decerr")
+			vc.typingFacts(st, errT, e)
+			return &Val{T: errT, S: e}
 		}
 		a := fr.bufAcc(st, args[0])
 		fr.checkNonNil(b, a.ref, reach, pos)
@@ -323,6 +331,7 @@ func (eng *Engine) initBufModels() {
 			size int
 			dyn  string // dynamic size (slices)
 			off  int
+			direct string
 		}
 		var fl []fld
 		total := 0
@@ -331,13 +340,28 @@ func (eng *Engine) initBufModels() {
 			pv := fr.get(x)
 			var t types.Type
 			var l *Loc
+			var direct string // slice passed by value
 			if _, isPtr := x.Type().Underlying().(*types.Pointer); isPtr {
 				t = ptrElem(x.Type())
 				l = vc.locOf(pv)
+			} else if _, isSl := x.Type().Underlying().(*types.Slice); isSl {
+				t = x.Type()
+				direct = pv.S
 			} else {
 				panic(unsupported("decode.Decode field that is not a pointer: " + x.Type().String()))
 			}
 			if sl, isSl := t.Underlying().(*types.Slice); isSl {
+				if direct != "" {
+					if w, _, ok := isIntType(sl.Elem()); !ok || w != 8 {
+						panic(unsupported("decode.Decode into a slice of non-bytes"))
+					}
+					if dynTotal != "" {
+						panic(unsupported("decode.Decode with two slice fields"))
+					}
+					dynTotal = app("g_slen", direct)
+					fl = append(fl, fld{t: t, dyn: dynTotal, off: total, direct: direct})
+					continue
+				}
 				if w, _, ok := isIntType(sl.Elem()); !ok || w != 8 {
 					panic(unsupported("decode.Decode into a slice of non-bytes"))
 				}
@@ -373,7 +397,10 @@ func (eng *Engine) initBufModels() {
 		for _, fd := range fl {
 			if fd.dyn != "" {
 				// fill the existing slice with the next len bytes
-				sv := vc.load(st, fd.loc)
+				sv := fd.direct
+				if sv == "" {
+					sv = vc.load(st, fd.loc)
+				}
 				base := bvConst(uint64(fd.off), 64)
 				vc.copyInto(st, u8, sv, sIte(okc, fd.dyn, bvConst(0, 64)), func(j string) string {
 					return fmt.Sprintf("(select %s (bvadd (g_soff %s) (bvadd %s (bvadd %s %s))))", arr, bf, o, base, j)
@@ -396,7 +423,9 @@ func (eng *Engine) initBufModels() {
 		eng.addElem(m, u8)
 		if fields, ok := literalFields(c.Args[1]); ok {
 			for _, x := range fields {
-				eng.storeTarget(m, x, 0)
+				if _, isPtr := x.Type().Underlying().(*types.Pointer); isPtr {
+					eng.storeTarget(m, x, 0)
+				}
 			}
 		} else {
 			m.all = true
@@ -450,6 +479,17 @@ func (vc *VC) copyInto(st *State, et types.Type, d, n string, srcAt func(j strin
 	es := vc.sorts().sortOf(et)
 	key := vc.elemKey(et)
 	darr := vc.def("(Array (_ BitVec 64) "+es+")", "cdst", vc.readCell(st, key, app("g_sarr", d)))
+	if k, ok := vc.knownLen[d]; ok && k <= 16 {
+		// destination of small constant length: element-wise, no quantifier
+		arr := darr
+		for j := 0; j < k; j++ {
+			jj := bvConst(uint64(j), 64)
+			idx := fmt.Sprintf("(bvadd (g_soff %s) %s)", d, jj)
+			arr = fmt.Sprintf("(store %s %s (ite (bvult %s %s) %s (select %s %s)))", arr, idx, jj, n, srcAt(jj), darr, idx)
+		}
+		vc.writeCell(st, key, app("g_sarr", d), arr)
+		return
+	}
 	na := vc.fresh("(Array (_ BitVec 64) "+es+")", "copied")
 	vc.assume(fmt.Sprintf("(forall ((g_j (_ BitVec 64))) (! (= (select %s g_j) (ite (and (bvule (g_soff %s) g_j) (bvult g_j (bvadd (g_soff %s) %s))) %s (select %s g_j))) :pattern ((select %s g_j))))",
 		na, d, d, n, srcAt(fmt.Sprintf("(bvsub g_j (g_soff %s))", d)), darr, na))
